@@ -148,3 +148,12 @@ Theorem c07_consume_returns : forall cf store log ins,
   exists ins', (List.length ins' <= mu cf w)%nat /\ w_phase (final cf w ins') = PIdle /\ exists r, In (EvReturn r) (trace cf w ins').
 Proof. exact consume_returns_holds. Qed.
 Print Assumptions c07_consume_returns.
+
+(* Errors of a claim's partition consumer are drained while the claim lives and handed to handleError, which never blocks:
+   reporting one changes nothing in the member, and no run depends on whether errors are delivered to / read by the
+   application (so neither do the session-end causes, c07_consume_returns, or the hook order). *)
+Theorem c07_errors_never_block : forall cf,
+  (forall w p d, fst (step cf w (IClaimError p d)) = w) /\
+  (forall ins w, final cf w (map undeliver ins) = final cf w ins).
+Proof. exact errors_never_block. Qed.
+Print Assumptions c07_errors_never_block.
